@@ -208,11 +208,29 @@ def check_s3(chk, m, K):
                                     offx = ptr_parts(x[1])[1] - (ptr_parts(node)[1] - K.link_off)
                                     if offx in (K.fibre["state"][0], K.fibre["priv"][0]) or offx not in [o for o, sz in K.fibre.values()]:
                                         opaque = x
-                        if opaque is not None:
+                        if opaque is not None and other == "runq":
+                            # a bit of the fibre's own state used as "is on the run queue": sound if S11 holds
+                            mask = None
+                            for c, taken, inst in p.conds:
+                                cc = strip_casts(c)
+                                if cc[0] == "icmp" and cc[1] in ("eq", "ne"):
+                                    for a, z in ((cc[2], cc[3]), (cc[3], cc[2])):
+                                        a, z = strip_casts(a), strip_casts(z)
+                                        if z[0] == "c" and z[2] == 0 and a[0] == "b" and a[1] == "and" and a[4][0] == "c" and \
+                                                paths.contains(a[3], lambda x: x == opaque) and (cc[1] == "eq") == bool(taken):
+                                            mask = a[4][2]
+                            if mask is not None and ptr_parts(opaque[1])[1] - (ptr_parts(node)[1] - K.link_off) == K.fibre["state"][0]:
+                                v = fib.check_flag_tracks_runq(chk, m, K, mask)
+                                if v is True:
+                                    ev = ("membership bit %#x of the fibre's state is clear (S11: the bit tracks the run queue)" % mask, 0)
+                                elif v is False:
+                                    ev = ("membership bit tested (S11 reports where it does not track the run queue)", 0)
+                        if ev is None and opaque is not None:
                             unknowns.append("membership in kernel.%s is decided from %s, which this rule does not interpret" % (other, fmt(opaque)[:40]))
                             continue
-                        problems.append("no evidence that the fibre is not already on kernel.%s" % other)
-                        continue
+                        if ev is None:
+                            problems.append("no evidence that the fibre is not already on kernel.%s" % other)
+                            continue
                     between = [fib.callee_name(c) for k, c in fib.calls_on(p) if ev[1] < k < k_ins and fib.callee_name(c) in MAY_INSERT]
                     if between:
                         problems.append("%s may queue the fibre between the evidence (%s) and the insertion" % (between[0], ev[0]))
